@@ -1,5 +1,6 @@
 // C03: reduced length, geodesic scales and area under a geodesic
 #include "geodcommon.hpp"
+#include "C01_line.hpp"
 using namespace gd; using namespace gv;
 
 static double tolS(double f, double a, double a12) {   // documented area accuracy 0.1 m^2 (WGS84), x4, growing with |f| for the series
@@ -119,6 +120,8 @@ void gv::generate(const std::string& tier, uint64_t seed) {
     bool arc = r.coin(); double len = arc ? (r.irange(0, 3) ? r.range(-180, 180) : r.range(-720, 720)) : (r.irange(0, 3) ? r.range(-2e7, 2e7) : r.range(-8e7, 8e7));
     run("glengths", {hx(a), hx(f), hx(lat1), hx(lon1), hx(azi1), arc ? "1" : "0", hx(len)});
     stratum("lengths-direct");
+    // the same segment through the Lean model of GeodesicLine (m12, M12, M21, S12 of GenPosition; ops of Corr/C01.lean)
+    gline::model_case(r, a, f, lat1, lon1, azi1, arc, len, false);
     double lat2 = r.irange(0, 6) ? r.range(-89, 89) : r.pick(std::vector<double>{0.0, -lat1, lat1, 0.0}), lon2 = r.irange(0, 6) ? r.range(-180, 180) : lon1 + r.pick(std::vector<double>{0.0, 1e-6, 10, 90, 170, 179.5});
     if (i % 9 == 0) { lat1 = 0; lat2 = 0; }   // equatorial segments
     run("ginvlengths", {hx(a), hx(f), hx(lat1), hx(lon1), hx(lat2), hx(lon2)});
